@@ -2,10 +2,12 @@ package rules
 
 import (
 	"fmt"
+	"go/constant"
 	"go/token"
 	"go/types"
 	"regexp"
 	"strings"
+	"tinkverif/bounds"
 
 	"golang.org/x/tools/go/ssa"
 
@@ -337,7 +339,9 @@ func c05(c *Ctx) {
 	c05PrefixFns(c)
 	c05PrefixMap(c)
 	c05Accept(c)
-	idZeroRule(c, "C05.idzero", func(rel string) bool { return !strings.HasPrefix(rel, "keyset") && !strings.HasPrefix(rel, "proto/") && !strings.HasPrefix(rel, "internal/protoserialization") })
+	idZeroRule(c, "C05.idzero", func(rel string) bool {
+		return !strings.HasPrefix(rel, "keyset") && !strings.HasPrefix(rel, "proto/") && !strings.HasPrefix(rel, "internal/protoserialization")
+	})
 }
 
 // canonEntry strips ToUnmonitoredEntry wrappers: the same keyset entry.
@@ -716,30 +720,70 @@ func c05PrefixMap(c *Ctx) {
 			}
 			return
 		}
-		conv, isConv := lk.Index.(*ssa.Convert)
-		if !isConv {
+		// the prefixed key: string(prefix[:NonRawPrefixSize]) under len(prefix) >= NonRawPrefixSize,
+		// computed here or by a helper of the package that hands back (key, ok)
+		direct := func(fn *ssa.Function, prm ssa.Value, v ssa.Value, facts []guard.Fact) string {
+			conv, isConv := guard.Strip(v).(*ssa.Convert)
+			if !isConv {
+				return "lookup key is not a conversion of a prefix slice"
+			}
+			sl, isSl := conv.X.(*ssa.Slice)
+			if !isSl || guard.Strip(sl.X) != guard.Strip(prm) || sl.Low != nil {
+				return "lookup key is not prefix[:NonRawPrefixSize]"
+			}
+			if !isConstEq(sl.High, nonRaw) {
+				return "lookup key length is not NonRawPrefixSize"
+			}
+			cx := bounds.NewCtx(fn)
+			nr, _ := constant.Int64Val(nonRaw)
+			if ok, _ := cx.Entails(cx.FactsToLin(facts), cx.LenOf(prm).Add(bounds.Konst(nr), -1)); !ok {
+				return "prefixed lookup is not guarded by len(prefix) >= NonRawPrefixSize"
+			}
+			return ""
+		}
+		if _, isConv := guard.Strip(lk.Index).(*ssa.Convert); isConv {
+			if w := direct(pm, pm.Params[1], lk.Index, guard.InstrFacts(ins)); w != "" {
+				why = w
+			} else {
+				prefixed = true
+			}
 			return
 		}
-		sl, isSl := conv.X.(*ssa.Slice)
-		if !isSl || sl.X != ssa.Value(pm.Params[1]) || sl.Low != nil {
-			why = "lookup key is not prefix[:NonRawPrefixSize]"
+		hc, hi := guard.CallOf(lk.Index)
+		if hc == nil || hi != 0 || hc.Call.StaticCallee() == nil || hc.Call.StaticCallee().Blocks == nil || !strings.Contains(core.PkgOf(hc.Call.StaticCallee()), "internal/prefixmap") {
+			why = "lookup key is neither the empty prefix nor string(prefix[:NonRawPrefixSize])"
 			return
 		}
-		if !isConstEq(sl.High, nonRaw) {
-			why = "lookup key length is not NonRawPrefixSize"
-			return
-		}
-		for _, fct := range guard.InstrFacts(ins) {
-			if op, x, y, ok := guard.Cmp(fct); ok && op == token.GEQ && isConstEq(y, nonRaw) {
-				if lc, isCall := x.(*ssa.Call); isCall {
-					if b, isB := lc.Call.Value.(*ssa.Builtin); isB && b.Name() == "len" && lc.Call.Args[0] == ssa.Value(pm.Params[1]) {
-						prefixed = true
-					}
-				}
+		h := hc.Call.StaticCallee()
+		argIdx := -1
+		for i, a := range hc.Call.Args {
+			if guard.Strip(a) == ssa.Value(pm.Params[1]) {
+				argIdx = i
 			}
 		}
-		if !prefixed {
-			why = "prefixed lookup is not guarded by len(prefix) >= NonRawPrefixSize"
+		// the lookup happens only under the helper's ok verdict
+		guarded := false
+		for _, fct := range guard.InstrFacts(ins) {
+			if ex, isE := fct.Cond.(*ssa.Extract); isE && fct.True && ex.Index == 1 && ex.Tuple == ssa.Value(hc) {
+				guarded = true
+			}
+		}
+		if argIdx < 0 || !guarded || h.Signature.Results().Len() != 2 {
+			why = "the helper computing the lookup key is not applied to the prefix under its ok verdict"
+			return
+		}
+		okAll, some := true, false
+		for _, ret := range guard.Returns(h) {
+			if b, isC := guard.ConstBool(ret.Results[1]); isC && !b {
+				continue // "no prefixed key" return
+			}
+			some = true
+			if w := direct(h, h.Params[argIdx], ret.Results[0], guard.BlockFacts(ret.Block())); w != "" {
+				okAll, why = false, w+" (in "+h.Name()+")"
+			}
+		}
+		if okAll && some {
+			prefixed = true
 		}
 	})
 	if why == "" && (!prefixed || !raw) {
